@@ -212,7 +212,9 @@ theorem scan_fold_of_inc (origin adjust : List α) (hl : origin.length = adjust.
       rw [List.range_succ (n := j + 1)]
     rw [List.range'_succ, List.foldl_cons, hstep]
     obtain ⟨p', hp'⟩ := ih (j + 1) j (by omega)
-    exact ⟨p', by rw [hp']; congr 1 <;> omega⟩
+    have e1 : j + 1 + 1 + m = j + 1 + (m + 1) := by omega
+    have e2 : j + 1 + m = j + (m + 1) := by omega
+    exact ⟨p', by rw [hp', e1, e2]⟩
 
 /-- **When the raw breakpoints already strictly increase in both coordinates (every interval carries
 mutations — `timescale_strict_iff`) the merging step changes nothing**: the time scale is the one the
@@ -226,8 +228,9 @@ theorem merge_noop_of_strict (origin adjust : List α) (hl : origin.length = adj
     unfold scan
     have e0 : ({ kept := [0], last := 0, prev := 0 } : Scan) =
         { kept := List.range (0 + 1), last := 0, prev := 0 } := by simp [List.range_succ]
-    rw [e0, hp']
-    congr 1 <;> omega
+    have e1 : 0 + 1 + (origin.length - 1) = origin.length := by omega
+    have e2 : 0 + (origin.length - 1) = origin.length - 1 := by omega
+    rw [e0, hp', e1, e2]
   unfold mergeBreaks
   simp only [hscan]
   rw [if_neg (by omega), if_neg (by simp)]
